@@ -36,6 +36,7 @@ ClauseProp ==
     enc_ok         |-> {"C04", "C02", "C01"},
     enc_n          |-> {"C04"},
     enc_bytes      |-> {"C02"},
+    enc_apache     |-> {"C02"},
     enc_tail       |-> {"C16"},
     enc_short_err  |-> {"C04"},
     enc_short_oob  |-> {"C04", "C16"},
@@ -112,6 +113,8 @@ JEncode(ty, val, buflen, obs) ==
              IF obs.out # "ok" THEN {"enc_ok"}
              ELSE If(obs.n = need, "enc_n") \cup
                   If(obs.n >= 0 /\ obs.n <= buflen /\ Denotes(ty, val, obs.bytes), "enc_bytes") \cup
+                  \* an independent Thrift implementation walks the whole output as one struct
+                  If("ap_ok" \notin DOMAIN obs \/ (obs.ap_ok /\ obs.ap_left = 0), "enc_apache") \cup
                   If(obs.dhi < obs.n, "enc_tail")
         ELSE \* the buffer is shorter than the message: an error, nothing written past the buffer.
              \* A success here returned something that cannot denote the value (it is too short).
